@@ -33,6 +33,9 @@ def _generic_snapshot():
                 snap.append((mod, name, 'weakset', list(v)))
             elif isinstance(v, (weakref.WeakKeyDictionary, weakref.WeakValueDictionary)):
                 snap.append((mod, name, 'weakdict', list(v.items())))
+            elif v is None or type(v) in (bool, int, float, str, bytes, tuple, frozenset):
+                # module-level flags ("already loaded", counters, ...)
+                snap.append((mod, name, 'scalar', v))
     return snap
 
 
@@ -59,6 +62,9 @@ def _generic_reset():
                 cur.clear()
                 for k, x in content:
                     cur[k] = x
+            elif kind == 'scalar':
+                if cur is not content and (cur is None or type(cur) in (bool, int, float, str, bytes, tuple, frozenset)):
+                    setattr(mod, name, content)
         except Exception:
             pass
     # memoising wrappers (functools.lru_cache / cache) anywhere in the package
